@@ -133,13 +133,20 @@ SIMD_RUNS = {
 BLOCK_RUNS_ELSEWHERE = (r"hashing::sha2::impl256::(sse41|avx)::digest_block$",)
 
 
-def check_block_runs(ctx, P):
+def check_block_runs(ctx, P, cfg=None):
+    from . import runshape
+    cfg = cfg or getattr(P, "cfg", "K0")
+    got = []
+    ctx.guard("shape-eval", "block runs@%s" % cfg, lambda: got.append(runshape.check(ctx, P, cfg, scalar_only=True)))
+    ctx.check(got == [4], "floor", "shape-eval:block-runs@%s" % cfg, "4 scalar block-run drivers decided by shape evaluation", "only %s scalar block-run drivers decided by shape evaluation" % got, key="floor:shape-eval:block-runs@%s" % cfg)
     for path, kw in BLOCK_RUNS.items():
         run_stream(ctx, P, "block-run", path, path, **kw)
 
 
 def check_simd_runs(ctx, P, cfg):
     n = 0
+    from . import runshape
+    ctx.guard("shape-eval", "simd block runs@%s" % cfg, lambda: runshape.check(ctx, P, cfg, simd_only=True))
     for path, kw in SIMD_RUNS.items():
         if P.fn_opt(path) is not None:
             n += 1
